@@ -400,7 +400,7 @@ func stepL(l Lst, op *Sx) string {
 			for k := range s {
 				parts = append(parts, Show(k))
 			}
-			return sortedJoin("{", parts, "}")
+			return sortedJoin("{", uniqStrings(parts), "}")
 		case "foldfut":
 			mode := a[5].Int()
 			ex, ctx := execsOf(mode)
